@@ -6,6 +6,8 @@
 import GocoinV.Model.Mempool
 import GocoinV.Spec.MempoolTemplate
 import GocoinV.Proofs.C12
+import GocoinV.Proofs.C12Inv
+import GocoinV.Proofs.C12Rbf
 namespace GocoinV.Props.C12
 open GocoinV.Mempool
 
@@ -58,37 +60,63 @@ theorem dup_input_refused (K : Keys) (mf : Nat) (s : State) (t : Tx) (fl : Flags
     · rename_i h2
       simp [hu, hd] at h2
 
-/-- The structural part of the pool invariant (`InvS`: TransactionsToSend keyed by BIDX, SpentOutputs exactly
-    the inverse of the pooled inputs) holds initially and is preserved by the two primitives through which
-    EVERY change of TransactionsToSend / SpentOutputs in the model goes — `delOne` (OneTxToSend.Delete without
-    children, incl. the rejectTx it may do) and `addT2S` (OneTxToSend.Add, when no input is spent in the pool) —
-    by everything that only touches the reject list or the sorted list, by replacement (`deleteRbf`) and by
-    eviction. -- OPEN: `pool_inv : ∀ ops, Inv K (run K {} ops)` (induction over `step`, with the spendable /
-    Fee / totals conjuncts) is not proved; what is missing is the glue showing that processTx's rbf list
-    contains every pooled spender of the new transaction's inputs, and the delete-with-children recursion. -/
-theorem pool_inv_partial (K : Keys) :
-    InvS K {} ∧
-    (∀ s t r, InvS K s → s.pool.get? (K.bidx t.tx.id) = some t → InvS K (delOne K s t r)) ∧
-    (∀ s t, InvS K s → s.pool.get? (K.bidx t.tx.id) = none → (∀ u ∈ uidxs K t.tx, s.spent.get? u = none) →
-        InvS K (addT2S K s t)) ∧
-    (∀ s t why m, InvS K s → InvS K (rejectTx K s t why m)) ∧
-    (∀ s b, InvS K s → InvS K (rejDeleteByIdx K s b)) ∧
-    (∀ s rbf, InvS K s → InvS K (deleteRbf K s rbf)) ∧
-    (∀ s v, InvS K s → InvS K (step K s (.evict v))) := by
-  refine ⟨⟨?_, ?_, ?_⟩, ?_, ?_, ?_, ?_, ?_, ?_⟩
-  · intro b t h; simp [AList.get?] at h
-  · intro u b h; simp [AList.get?] at h
-  · intro b t h; simp [AList.get?] at h
-  · intro s t r h hin; exact delOne_InvS K s t r h hin
-  · intro s t h hf hfree; exact addT2S_InvS K s t h hf hfree
-  · intro s t why m h; exact InvS_of_core h (rejectTx_core K s t why m)
-  · intro s b h; exact InvS_of_core h (rejDeleteByIdx_core K s b)
-  · intro s rbf h; unfold deleteRbf; exact deleteRbf_InvS K _ s h
-  · intro s v h
-    simp only [step]
-    cases he : evict K s v with
-    | none => simpa using h
-    | some s' => simpa using evict_InvS K v s s' h he
+/-- The structural part of the pool invariant holds after EVERY history of operations (the quantifier of the
+    property: submissions from peers / trusted peers / the local wallet incl. replacements and orphans resolved by
+    txAccepted, connected blocks, undone blocks, tip moves, expiry with children, size-limit eviction, re-sorting,
+    BlockCommitInProgress, save + reload), started from the empty pool:
+    `InvS` = TransactionsToSend is keyed by the BIDX of its records ∧ every SpentOutputs entry points to a pooled
+    record having that input ∧ every input of every pooled record is in SpentOutputs under that record's key —
+    i.e. SpentOutputs is exactly the inverse of the pooled inputs, hence no two pooled records share an input index.
+    Hypotheses (`Univ`), all about the set `W` of transactions occurring in the history, none about the pool:
+    BIDX does not collide on their txids; the UIdx of one of their inputs equals the UIdx of an output slot of one
+    of them only if the input names that transaction; a txid determines the transaction; every transaction has
+    an input; the spending relation is acyclic (`rank`).
+    -- OPEN: `pool_inv : ∀ ops, Inv K (run K {} ops)` with the further conjuncts of DESIGN §6 — every input is an
+    unspent confirmed output or an output of a pooled record and MemInputs says which, nothing pooled is confirmed,
+    Fee = Σin − Σout / Volume, TransactionsToSendWeight = Σ weights, ring / WaitingForInputs / RejectedSpentOutputs
+    consistent — is NOT proved. These conjuncts need the chain side (blocks valid against the UTXO set, undo data
+    consistent with the blocks) as further hypotheses on the history; they are checked on the real pool after
+    every operation by the harness predicate only. -/
+theorem pool_inv_struct (K : Keys) (W : Tx → Prop) (rank : TxId → Nat) (U : Univ K W rank) (ops : List Op)
+    (hW : ∀ op ∈ ops, ∀ t ∈ op.txs, W t) : InvS K (run K {} ops) :=
+  (run_InvR U ops {} (InvR_init K W) hW).str
+
+/-- ... and each single operation keeps it, from any state that satisfies the carried invariant `InvR`
+    (InvS ∧ the pool list has no duplicate key ∧ every transaction stored in the pool, the rejected list and the
+    undo stack belongs to `W`). -/
+theorem pool_inv_step (K : Keys) (W : Tx → Prop) (rank : TxId → Nat) (U : Univ K W rank) (s : State) (op : Op)
+    (h : InvR K W s) (hW : ∀ t ∈ op.txs, W t) : InvR K W (step K s op) :=
+  step_InvR U s op h hW
+
+/-- Conflict-freedom over all histories: in every reachable state two pooled records that have an input with the
+    same UIdx are the same record (same key). With UIdx injective on the outpoints in play this is "no two pooled
+    transactions spend the same output". -/
+theorem pool_conflict_free (K : Keys) (W : Tx → Prop) (rank : TxId → Nat) (U : Univ K W rank) (ops : List Op)
+    (hW : ∀ op ∈ ops, ∀ t ∈ op.txs, W t) (b1 b2 : Nat) (t1 t2 : T2S)
+    (h1 : (run K {} ops).pool.get? b1 = some t1) (h2 : (run K {} ops).pool.get? b2 = some t2)
+    (i1 i2 : TxIn) (m1 : i1 ∈ t1.tx.ins) (m2 : i2 ∈ t2.tx.ins)
+    (heq : K.uidx i1.prev i1.vout = K.uidx i2.prev i2.vout) : b1 = b2 := by
+  have h := pool_inv_struct K W rank U ops hW
+  have u1 : K.uidx i1.prev i1.vout ∈ uidxs K t1.tx := List.mem_map.mpr ⟨i1, m1, rfl⟩
+  have u2 : K.uidx i1.prev i1.vout ∈ uidxs K t2.tx := List.mem_map.mpr ⟨i2, m2, heq.symm⟩
+  have e1 := h.complete b1 t1 h1 _ u1
+  have e2 := h.complete b2 t2 h2 _ u2
+  rw [e1] at e2
+  exact Option.some.inj e2
+
+/-- The repaired replacement rule (3rd `fix:` commit): processTx refuses (BAD_INPUT, pool untouched) a transaction
+    one of whose in-pool parents is on its own rbf list, whatever the flags, whenever the input loop succeeds. -/
+theorem replaced_parent_refused (K : Keys) (mf : Nat) (s : State) (t : Tx) (fl : Flags) (a : Acc)
+    (h1 : (!fl.unmined && decide (t.weight > s.cfg.maxTxWeight)) = false)
+    (h2 : (!fl.unmined && hasDupInput t.ins) = false)
+    (ha : t.ins.foldlM (inputStep K s fl) ({} : Acc) = .ok a)
+    (hr : spendsReplaced K t.ins a.frommem a.rbf = true) :
+    (processTx K mf s t fl).1 = R_BAD_INPUT ∧ (processTx K mf s t fl).2.pool = s.pool ∧
+    (processTx K mf s t fl).2.spent = s.spent := by
+  unfold processTx
+  simp only [h1, h2, ha, hr, if_true, Bool.false_eq_true, if_false]
+  have c := rejectTx_core K s t R_BAD_INPUT none
+  exact ⟨trivial, c.1, c.2.1⟩
 
 /-- Under `InvS` no two pooled records spend the same UIdx; with UIdx injective on outpoints (explicit
     hypothesis: the code's 64-bit index is not injective in general) no two pooled transactions spend the same
@@ -119,6 +147,23 @@ theorem evict_childless (K : Keys) (s s' : State) (b : Nat) (r : List Nat)
     · exact ⟨t, rfl, hc⟩
     · simp [hc] at h
 
+/-- GetSortedMempoolRBF (the listing the property observes): merging the sorted list `l` with the CPFP fee packages
+    `pks` (pkgs.go, `mergeRBF` = the two nested loops incl. `anyIn`) yields a listing without duplicates, of exactly
+    the transactions of `l`, with every pooled transaction after its flagged in-pool parents — provided `l` is such
+    a listing of the whole pool and every package passes `pkgOK` (no duplicates, members pooled, closed under
+    flagged parents with parents first; this is what the harness has the model check on gocoin's FeePackages
+    before every comparison of the two listings). -/
+theorem rbf_listing_valid (K : Keys) (s : State) (l : List Nat) (pks : List Pkg)
+    (hn : l.Nodup) (hl : pfKeys K s [] l = true) (hall : ∀ b t, s.pool.get? b = some t → b ∈ l)
+    (hp : ∀ pk ∈ pks, pkgOK K s pk = true) :
+    (mergeRBF s l pks []).Nodup ∧ (∀ b, b ∈ mergeRBF s l pks [] ↔ b ∈ l) ∧
+    pfKeys K s [] (mergeRBF s l pks []) = true := by
+  have hl' := (pfKeys_iff K s l []).mp hl
+  have _ := hn
+  obtain ⟨h1, h2⟩ := mergeRBF_listed K s l hl' l [] pks [] (by simp)
+    (fun pk hpk => pkgOK_fits K s l hall pk (hp pk hpk)) ⟨List.nodup_nil, by simp, trivial⟩ (by simp)
+  exact ⟨h1.nodup, fun b => ⟨h1.sub b, h2 b⟩, (pfKeys_iff K s _ []).mpr h1.pf⟩
+
 /-! non-vacuity -/
 
 def K0 : Keys := { bidx := id, uidx := fun a b => a * 1000 + b }
@@ -135,6 +180,39 @@ example : hasDupInput txD.ins = true := by decide
 example : BlockOK (fun o => (s0.utxo.get? o).isSome) [txA, txB] := by
   simp [BlockOK, Tx.inOps, TxIn.op, txA, txB, s0, AList.get?, Tx.creates]
 example : evict K0 s2 [7] = none := by decide
+
+/-- a universe for which the hypotheses of `pool_inv_struct` hold, and a history over it that fills the pool -/
+def K2 : Keys := { bidx := id, uidx := fun a _ => a }
+def W2 : Tx → Prop := fun t => t = txA ∨ t = txB
+theorem univ2 : Univ K2 W2 id := by
+  refine ⟨?_, ?_, ?_, ?_, ?_⟩
+  · intro a b _ _ h; exact h
+  · intro c t _ _ i _ v h; exact h
+  · intro a b ha hb h
+    rcases ha with rfl | rfl <;> rcases hb with rfl | rfl <;> first | rfl | (simp [txA, txB] at h)
+  · intro a ha; rcases ha with rfl | rfl <;> simp [txA, txB]
+  · intro a ha i hi
+    rcases ha with rfl | rfl <;> simp [txA, txB] at hi <;> subst hi <;> decide
+def ops2 : List Op := [.tip 5, .submitNet txB false 0, .submitNet txA false 0, .resort, .reload, .expire [8]]
+example : ∀ op ∈ ops2, ∀ t ∈ op.txs, W2 t := by
+  intro op ho t ht
+  simp only [ops2, List.mem_cons, List.not_mem_nil, or_false] at ho
+  rcases ho with rfl | rfl | rfl | rfl | rfl | rfl <;> simp [Op.txs] at ht <;> simp [W2, ht]
+example : ((run K2 { utxo := [((1, 0), ⟨60, 1, false⟩)] } ops2).pool.map (·.1)) = [7] := by decide
+-- two families joined by a child: the package rooted at 9 overlaps the already listed 7, 8 and is skipped
+def txE : Tx := { id := 9, ins := [⟨2, 0, 0⟩], outs := [1], nws := 100, size := 100, scriptOk := true }
+def txF : Tx := { id := 11, ins := [⟨8, 0, 0⟩, ⟨9, 0, 0⟩], outs := [1], nws := 100, size := 100, scriptOk := true }
+def s4 : State :=
+  (submitNet K0 0 (submitNet K0 0 { s2 with utxo := ((2, 0), ⟨10, 1, false⟩) :: s2.utxo } txE false).2 txF false).2
+def pk9 : Pkg := { txs := [9, 7, 8, 11], fee := 67, weight := 1600 }
+def pk7 : Pkg := { txs := [7, 8, 9, 11], fee := 67, weight := 1600 }
+example : getSorted K0 s4 = [7, 8, 11, 9] ∨ getSorted K0 s4 = [7, 8, 9, 11] := by decide
+example : pkgOK K0 s4 pk9 = true ∧ pkgOK K0 s4 pk7 = true := by decide
+example : sortedRBF K0 s4 [pk7, pk9] = [7, 8, 9, 11] := by decide
+-- the replacement that spends its own victim's output: a <- b pooled, c spends a's input and b's output
+def txC : Tx := { id := 10, ins := [⟨1, 0, 0⟩, ⟨8, 0, 0⟩], outs := [1], nws := 100, size := 100, scriptOk := true }
+example : (processTx K0 0 s2 txC {}).1 = R_BAD_INPUT := by decide
+example : (processTx K0 0 s2 txC { trusted := true, loc := true }).1 = R_BAD_INPUT := by decide
 example : (evict K0 s2 [8, 7]).isSome = true := by decide
 
 end GocoinV.Props.C12
